@@ -911,6 +911,8 @@ class Interp:
             v = frame.env[name]
             if type(v).__name__ == "UnboundAfterLoop":
                 raise EngineError(f"variable {name!r} is read after the loop at {v.where} whose zero-trip case was not split off")
+            if type(v).__name__ == "Undetermined":
+                raise EngineError(f"variable {name!r} is read after a loop that may not have run ({v.where}) and has no mergeable value")
             return v
         m = frame.module
         if name in m.defs:
@@ -1131,7 +1133,7 @@ class Interp:
         o = CMPOPS[type(op)]
         if self.lib.is_lib_value(a) or self.lib.is_lib_value(b):
             return self.lib.value_binop(self, o, a, b)
-        if isinstance(a, (A.Arr,)) or isinstance(b, (A.Arr,)):
+        if isinstance(a, (A.Arr, A.Masked)) or isinstance(b, (A.Arr, A.Masked)):
             if isinstance(a, str) or isinstance(b, str):
                 # numpy dtype comparisons like condition.dtype == "bool" are handled in lib; arrays vs str: elementwise on object arrays unsupported
                 raise EngineError("array compared with string")
